@@ -257,35 +257,55 @@ func TestC16Histories(t *testing.T) {
 			t.Fatalf("C16 violated (history step %d, candidate signature %q)\n%s\nhistory: %s", step, v.sig, v.msg, h.JSON())
 		}
 		st := s.stats
-		labels := []string{"history"}
-		add := func(c bool, l string) {
-			if c {
-				labels = append(labels, l)
-			}
-		}
-		add(st.failTxs > 0, "has-failing-command")
-		add(st.richFail > 0, "failing-command-set+overwrite+delete+both-event-kinds")
-		add(st.delPreexisting > 0, "block-deletes-preexisting-key")
-		add(st.reverts > 0, "revert")
-		add(st.recoveries > 0, "recovery-app-ahead")
-		add(st.recoveries2 > 0, "recovery-app-2-blocks-ahead")
-		add(st.retainedAfterRestore > 0, "command-uses-retained-handle-after-restore")
-		add(st.storeRestores > 0, "command-uses-store-level-restore")
-		add(st.abandoned > 0, "block-abandoned-or-crash")
-		add(st.expectedRoots > 0, "commit-with-expected-root")
-		add(st.restarts > 0, "restart")
-		add(st.dryTxs > 0, "dry-run-execute")
-		add(st.failWithSnap > 0, "failing-command-with-nested-restore")
-		add(st.okAfterRestore > 0, "succeeding-command-with-nested-restore")
-		add(st.followedEvents > 0, "followed-known-S12")
-		add(st.followedTomb > 0, "followed-known-S13")
-		add(st.committed == 0, "no-block-committed")
+		labels := historyLabels("history", &st)
 		nontrivial := st.richFail > 0 || st.delPreexisting > 0
 		evid.R.Case(h.JSON(), nontrivial, func() any { return h }, labels...)
 		evid.R.Label("blocks", int64(st.blocks))
 		evid.R.Label("transactions", int64(st.txs))
 		evid.R.Label("failing-transactions", int64(st.failTxs))
 	})
+}
+
+// historyLabels classifies an executed history (first label = kind of case).
+func historyLabels(kind string, st *simStats) []string {
+	labels := []string{kind}
+	add := func(c bool, l string) {
+		if c {
+			labels = append(labels, l)
+		}
+	}
+	add(st.failTxs > 0, "has-failing-command")
+	add(st.richFail > 0, "failing-command-set+overwrite+delete+both-event-kinds")
+	add(st.delPreexisting > 0, "block-deletes-preexisting-key")
+	add(st.reverts > 0, "revert")
+	add(st.recoveries > 0, "recovery-app-ahead")
+	add(st.recoveries2 > 0, "recovery-app-2-blocks-ahead")
+	add(st.retainedAfterRestore > 0, "command-uses-retained-handle-after-restore")
+	add(st.storeRestores > 0, "command-uses-store-level-restore")
+	add(st.abandoned > 0, "block-abandoned-or-crash")
+	add(st.expectedRoots > 0, "commit-with-expected-root")
+	add(st.restarts > 0, "restart")
+	add(st.dryTxs > 0, "dry-run-execute")
+	add(st.failWithSnap > 0, "failing-command-with-nested-restore")
+	add(st.okAfterRestore > 0, "succeeding-command-with-nested-restore")
+	add(st.followedEvents > 0, "followed-known-S12")
+	add(st.followedTomb > 0, "followed-known-S13")
+	add(st.committed == 0, "no-block-committed")
+	// reorganisations
+	add(st.neutralCommitted > 0, "state-neutral-block-committed")
+	add(st.removedNeutral > 0, "state-neutral-block-removed")
+	add(st.revertNeutralOverStale > 0, "revert-of-state-neutral-block-at-height-of-abandoned-state-changing-block")
+	add(st.recoverNeutralOverStale > 0, "recovery-over-state-neutral-block-at-height-of-abandoned-state-changing-block")
+	add(st.reorgDepth[1] > 0, "reorg-depth-1")
+	add(st.reorgDepth[2] > 0, "reorg-depth-2")
+	add(st.reorgDepth[3] > 0, "reorg-depth-3")
+	add(st.reorgDepth[4] > 0, "reorg-depth-4+")
+	add(st.reorgs >= 2, "two-or-more-reorgs")
+	add(st.removedAtMultiHeight > 0, "removal-at-height-that-saw-2+-blocks")
+	add(st.removedAtMulti3 > 0, "removal-at-height-that-saw-3+-blocks")
+	add(st.descents > 0, "descent-through-2+-heights-that-saw-2+-blocks")
+	add(st.recoveryDepthMax >= 3, "recovery-app-3+-blocks-ahead")
+	return labels
 }
 
 // ---------------------------------------------------------------------------------------------------------------------
